@@ -1041,23 +1041,24 @@ func c07Gen(zero bool) func(rt *rapid.T) c07Case {
 		if fin {
 			n = rapid.IntRange(0, 8).Draw(rt, "n")
 		} else {
-			switch rapid.IntRange(0, 9).Draw(rt, "nkind") {
-			case 0:
-				n = 0
-			case 1:
-				n = 1
-			case 2:
-				n = w - 1
-			case 3:
-				n = w
-			case 4, 5:
+			// (rapid favours small draws: the interesting counts come first)
+			switch rapid.IntRange(0, 13).Draw(rt, "nkind") {
+			case 0, 1, 2:
 				n = w + 1
-			case 6, 7:
+			case 3, 4, 5:
 				n = rapid.IntRange(w+1, 3*w+2).Draw(rt, "n")
-			case 8:
+			case 6:
+				n = w
+			case 7:
+				n = w - 1
+			case 8, 9:
 				n = rapid.IntRange(0, 12).Draw(rt, "n")
-			default:
+			case 10, 11:
 				n = rapid.IntRange(20, 200).Draw(rt, "n")
+			case 12:
+				n = 1
+			default:
+				n = 0
 			}
 		}
 		disturbed := rapid.IntRange(0, 9).Draw(rt, "disturbed") < 6
@@ -1090,17 +1091,19 @@ func c07Gen(zero bool) func(rt *rapid.T) c07Case {
 			}
 			c.Red.D = c07Pick(rt, "rd", 0, 0, 0, 1, 2)
 			if c.Entry != "void" {
-				switch rapid.IntRange(0, 11).Draw(rt, "rw") {
-				case 0:
+				switch rapid.IntRange(0, 15).Draw(rt, "rw") {
+				case 0, 1:
 					c.Red.Late = 0
-				case 1:
-					c.Red.Late = 2
 				case 2:
-					c.Red.Early = 1
+					if rapid.Bool().Draw(rt, "rw2early") {
+						c.Red.Early = 2
+					} else {
+						c.Red.Late = 2
+					}
 				case 3:
 					c.Red.Early, c.Red.Late = 1, 1
-				case 4:
-					c.Red.Early = 2
+				case 4, 5:
+					c.Red.Early = 1
 				default:
 					c.Red.Late = 1
 				}
@@ -1184,7 +1187,9 @@ func TestVerif_C07_zz_loop(t *testing.T) {
 
 // c07Enumerate: small-scope exhaustive enumeration of MapReduce calls.
 // quick:    workers 1..2, 1..2 items with delay 0..1 / plain|cancel|panic / one value each,
-//           reducer take all|0|1 x result none|late|early x plain|cancel|panic, ctx none|deadline 0..1
+//
+//	reducer take all|0|1 x result none|late|early x plain|cancel|panic, ctx none|deadline 0..1
+//
 // thorough: delays 0..2, 0..2 values per item, ctx deadline 0..2 in addition.
 func c07Enumerate(thorough bool) func(yield func(c07Case) bool) {
 	ds, ws, ctxs := []int{0, 1}, []int{1}, []int{-1, 0, 1}
